@@ -1,7 +1,9 @@
-(** C19, part 4: concrete repositories - non-vacuity of the hypotheses and one
-    witness inside each known-finding class (all by evaluation). *)
+(** C19, part 4: concrete repositories - non-vacuity of the hypotheses, one
+    witness inside each known-finding class, and the two repaired classes as
+    positive examples plus a historical note about the code before the repair
+    (all by evaluation). *)
 From Rocfl Require Import Base.Bytes Generated.Consts Model.Listing Model.KnownC19
-  Proofs.BytesFacts Proofs.ListingFacts Proofs.ListingWalkFacts Proofs.ListingGetFacts.
+  Proofs.BytesFacts Proofs.ListingFacts Proofs.ListingWalkFacts Proofs.ListingGetFacts Proofs.ListingHandle.
 Open Scope N_scope.
 
 Definition w_rest : bytes := b ",""type"":""https://ocfl.io/1.1/spec/#inventory""}".
@@ -36,7 +38,7 @@ Proof.
 Qed.
 
 Lemma w_good_facts :
-  names_unique w_good = true /\ c19 w_good = false /\
+  names_unique w_good = true /\ c19_id_needs_escape w_good = false /\
   committed_ids w_good = [b "one"; b "two*[x]"] /\
   list_objects lit_match w_good None = [IOk [b "a"; b "b"] (b "one"); IOk [b "a"; b "c"] (b "two*[x]")] /\
   list_objects lit_match w_good (Some (b "two*[x]")) = [IOk [b "a"; b "c"] (b "two*[x]")] /\
@@ -49,7 +51,7 @@ Proof. repeat split; try (vm_compute; reflexivity). left. reflexivity. Qed.
 (** the staging root of that repository, taken as a repository of its own *)
 Definition w_staging : tree := Dir [(b "abc", Dir (w_obj false (b "staged-only")))].
 
-Lemma w_staging_wf : WellFormedRepo w_staging /\ c19 w_staging = false /\
+Lemma w_staging_wf : WellFormedRepo w_staging /\ c19_id_needs_escape w_staging = false /\
   list_staged_objects lit_match w_staging None = [IOk [b "abc"] (b "staged-only")].
 Proof.
   split; [|split; vm_compute; reflexivity]. split.
@@ -58,10 +60,12 @@ Proof.
   - change (committed_ids w_staging) with [b "staged-only"]. constructor; [intros []| constructor].
 Qed.
 
-(** ** Known finding root-named-extensions: layout 0003, id extensions *)
+(** ** Repaired (38fe584, was known finding root-named-extensions): layout 0003,
+    id extensions - the object root is a directory NAMED extensions below the
+    first level; the storage root's own extensions directory holds a staged object *)
 Definition w_ext : tree :=
   Dir [(b "0=ocfl_1.1", File (b "ocfl_1.1"));
-       (EXT, Dir []);
+       (EXT, Dir [(b "rocfl-staging", Dir [(b "abc", Dir (w_obj false (b "staged-only")))])]);
        (b "20e", Dir [(b "f77", Dir [(b "39e", Dir [(b "extensions", Dir (w_obj false (b "extensions")))])])])].
 Definition w_ext_path : path := [b "20e"; b "f77"; b "39e"; b "extensions"].
 
@@ -74,12 +78,19 @@ Proof.
 Qed.
 
 Lemma w_ext_facts :
-  c19_root_named_extensions w_ext = true /\ c19_id_needs_escape w_ext = false /\
+  c19_id_needs_escape w_ext = false /\
   committed_ids w_ext = [b "extensions"] /\
-  list_objects lit_match w_ext None = [] /\
-  scan_for_inventory w_ext (b "extensions") = NotFound /\
-  get_inventory_by_path w_ext (b "extensions") w_ext_path = Found w_ext_path (b "extensions").
+  list_objects lit_match w_ext None = [IOk w_ext_path (b "extensions")] /\
+  list_objects lit_match w_ext (Some (b "extensions")) = [IOk w_ext_path (b "extensions")] /\
+  scan_for_inventory w_ext (b "extensions") = Found w_ext_path (b "extensions") /\
+  get_inventory_by_path w_ext (b "extensions") w_ext_path = Found w_ext_path (b "extensions") /\
+  validate_object_root w_ext w_ext_path = true /\
+  validate_object_root w_ext [EXT; b "rocfl-staging"; b "abc"] = false.
 Proof. repeat split; vm_compute; reflexivity. Qed.
+
+(** historical note: the walk before 38fe584 skipped the name at every depth and lost the object *)
+Lemma w_ext_before_fix : walk_before_fix w_ext = [] /\ walk w_ext = [(w_ext_path, w_obj false (b "extensions"))].
+Proof. split; vm_compute; reflexivity. Qed.
 
 (** ** Known finding id-needs-json-escape: no layout, id = id QUOTE q *)
 Definition w_idq : bytes := bs [105; 100; 34; 113].      (* id QUOTE q *)
@@ -100,12 +111,15 @@ Proof.
 Qed.
 
 Lemma w_esc_facts :
-  c19_root_named_extensions w_esc = false /\ c19_id_needs_escape w_esc = true /\
+  c19_id_needs_escape w_esc = true /\
   listed_ids (list_objects lit_match w_esc None) = [w_idq; b "plain"] /\
   raw_capture w_idq = w_idb /\
   scan_for_inventory w_esc w_idq = NotFound /\                       (* committed, not found *)
   scan_for_inventory w_esc w_idb = Found [b "objs"; b "x"] w_idq /\  (* never committed, answers with another object *)
-  list_objects lit_match w_esc (Some w_idq) = [].
+  list_objects lit_match w_esc (Some w_idq) = [] /\
+  (* the wrong match is cached: the next lookup of the cut text through the same handle *)
+  snd (get_inventory None [] w_esc w_idb) = [(w_idb, [b "objs"; b "x"])] /\
+  fst (get_inventory None [(w_idb, [b "objs"; b "x"])] w_esc w_idb) = Corrupt.
 Proof. repeat split; vm_compute; reflexivity. Qed.
 
 (** ** Known finding layout-path-occupied: layouts 0002/0006, id extensions *)
@@ -120,14 +134,58 @@ Proof.
   intros [H|[H|[]]]; vm_compute in H; discriminate H.
 Qed.
 
-(** ** Known finding stale-id-path-cache: A1 purged, B1 created at the same root *)
-Definition w_stale : tree :=
-  Dir [(b "0=ocfl_1.1", File (b "ocfl_1.1")); (b "reuse", Dir [(b "x", Dir (w_obj false (b "B1")))])].
+(** ** Repaired (4564259, was known finding stale-id-path-cache): one handle looks A1
+    up, purges it, B1 is created at the same object root, A1 is looked up again *)
+Definition w_reuse (i : bytes) : tree :=
+  Dir [(b "0=ocfl_1.1", File (b "ocfl_1.1")); (b "reuse", Dir [(b "x", Dir (w_obj false i))])].
+Definition w_stale0 : tree := w_reuse (b "A1").
+Definition w_stale : tree := w_reuse (b "B1").
 Definition w_cache : cache := [(b "A1", [b "reuse"; b "x"])].
 
-Lemma w_stale_facts :
-  committed_ids w_stale = [b "B1"] /\ c19 w_stale = false /\
-  c19_cache_stale w_cache w_stale (b "A1") = true /\
-  fst (get_inventory None w_cache w_stale (b "A1")) = Corrupt /\      (* expected NotFound *)
-  fst (get_inventory None [] w_stale (b "A1")) = NotFound.             (* a fresh handle is right *)
+Lemma w_reuse_good i : i <> [] -> needs_escape i = false -> Good (w_reuse i).
+Proof.
+  intros Hi He. split; [|split].
+  - split.
+    + change (spec_roots (w_reuse i)) with [([b "reuse"; b "x"], w_obj false i)].
+      constructor; [|constructor]. exists i. split; [exact Hi|].
+      split; [exists false, w_rest; reflexivity| reflexivity].
+    + assert (E : parse_inventory (w_obj false i) = Ok i).
+      { apply (wf_root_parse i ([], w_obj false i)). split; [exact Hi|].
+        split; [exists false, w_rest; reflexivity| reflexivity]. }
+      unfold committed_ids. change (spec_roots (w_reuse i)) with [([b "reuse"; b "x"], w_obj false i)].
+      cbn [flat_map]. unfold root_id. cbn [snd]. rewrite E. cbn [app]. constructor; [intros []| constructor].
+  - reflexivity.
+  - assert (E : parse_inventory (w_obj false i) = Ok i).
+    { apply (wf_root_parse i ([], w_obj false i)). split; [exact Hi|].
+      split; [exists false, w_rest; reflexivity| reflexivity]. }
+    unfold c19_id_needs_escape, committed_ids.
+    change (spec_roots (w_reuse i)) with [([b "reuse"; b "x"], w_obj false i)].
+    cbn [flat_map]. unfold root_id. cbn [snd]. rewrite E. cbn [app existsb]. now rewrite He.
+Qed.
+
+Lemma w_stale_history :
+  (* lookup, then purge through the handle: the entry is gone *)
+  snd (get_inventory None [] w_stale0 (b "A1")) = w_cache /\
+  purge_object None w_cache w_stale0 (b "A1") = (POk, remove_at w_stale0 [b "reuse"; b "x"], []) /\
+  (* B1 now lives at the same root *)
+  committed_ids w_stale = [b "B1"] /\
+  reachable None w_stale [] /\
+  fst (get_inventory None [] w_stale (b "A1")) = NotFound /\
+  fst (get_inventory None [] w_stale (b "B1")) = Found [b "reuse"; b "x"] (b "B1").
+Proof.
+  assert (G0 : Good w_stale0) by (apply w_reuse_good; [discriminate| reflexivity]).
+  split; [vm_compute; reflexivity|]. split; [vm_compute; reflexivity|]. split; [vm_compute; reflexivity|].
+  split; [|split; vm_compute; reflexivity].
+  pose proof (R_get None w_stale0 [] (b "A1") (R_open None w_stale0) G0) as R1.
+  pose proof (R_purge None w_stale0 _ (b "A1") R1 G0) as R2.
+  apply (R_write None _ w_stale _ R2).
+  intros r Hr. vm_compute in Hr. destruct Hr.
+Qed.
+
+(** historical note: before 4564259 purge left the entry behind and the same
+    handle answered CorruptObject for the purged id *)
+Lemma w_stale_before_fix :
+  purge_cache_before_fix None w_cache w_stale0 (b "A1") = w_cache /\
+  cache_sound w_cache w_stale = false /\
+  fst (get_inventory None w_cache w_stale (b "A1")) = Corrupt.
 Proof. repeat split; vm_compute; reflexivity. Qed.
